@@ -1365,3 +1365,224 @@ Proof.
   exists p', q. change (str_text ned p) with (date_text (year_text ned (date_year d)) d ++ "T" ++ "24:00:00" ++ zone_text z) in *.
   auto.
 Qed.
+
+(* ---- part P10 (custom formats: lemmas; the end-to-end theorem is still to be assembled) ---- *)
+(* ------------------------------------------------------------------ *)
+(* 5. custom formats: complete date "T" time to the second "Z"         *)
+(* ------------------------------------------------------------------ *)
+Definition F_HMS_BASIC : form := Eval vm_compute in pick "basic" "hhmmss" TIME_FORMS.
+Definition cdate_expr (ext xp : bool) (k : Z) : string :=
+  (if xp then "+XCCYY" else "CCYY") ++
+  (if ext then (if k =? 0 then "-MM-DD" else if k =? 1 then "-DDD" else "-Www-D")
+   else (if k =? 0 then "MMDD" else if k =? 1 then "DDD" else "WwwD")).
+Definition CF (nedc : Z) (ext xp : bool) (k : Z) : form :=
+  pick (if ext then "extended" else "basic") (cdate_expr ext xp k) (date_forms_of nedc).
+Definition CT (ext : bool) : form := if ext then F_HMS_EXT else F_HMS_BASIC.
+Definition cust_fmt (ext xp : bool) (k : Z) : string := cdate_expr ext xp k ++ "T" ++ f_expr (CT ext) ++ "Z".
+
+Definition dtoks_eqb (a b : list dtok) : bool := if list_eq_dec dtok_eq_dec a b then true else false.
+Definition strs_eqb (a b : list string) : bool := if list_eq_dec string_dec a b then true else false.
+Definition cust_case_ok (c : Z * bool * bool * Z) : bool :=
+  let '(ned, ext, xp, k) := c in
+  let nedc := pcfg_ned ned in let fd := CF nedc ext xp k in let ft := CT ext in
+  let props := (f_props fd ++ f_props ft)%list in
+  negb (contains_char "%" (cust_fmt ext xp k)) &&
+  match expression_of (date_forms_of ned) TIME_FORMS ZONE_FORMS zone_of_text (cust_fmt ext xp k) with
+  | inl (Some (tmpl, props', Some (0, 0))) =>
+    dtoks_eqb tmpl (f_dump fd ++ [DLit "T"] ++ f_dump ft ++ [DLit "Z"]) && strs_eqb props' props
+  | _ => false end &&
+  Bool.eqb (mem "week_of_year" props || mem "day_of_week" props) (k =? 2) &&
+  Bool.eqb (mem "month_of_year" props || mem "day_of_month" props || mem "day_of_year" props) (negb (k =? 2)) &&
+  mem "century" props && Bool.eqb (mem "expanded_year_digits" props) xp &&
+  triple_ok (date_forms_of nedc) TIME_FORMS ZONE_FORMS (default_cfg nedc) fd ft (Some F_Z_EXT) &&
+  num_keys_ok DATE_KEYS (f_parse fd) && num_keys_ok TIME_KEYS (f_parse ft).
+Definition cust_cases : list (Z * bool * bool * Z) :=
+  flat_map (fun ned => flat_map (fun ext => flat_map (fun xp => map (fun k => (ned, ext, xp, k)) [0; 1; 2])
+     (if ned =? 0 then [false] else [false; true])) [false; true]) [0; 2; 3].
+Theorem cust_tables : forallb cust_case_ok cust_cases = true.
+Proof. vm_compute. reflexivity. Qed.
+
+Lemma dtoks_eqb_eq : forall a b, dtoks_eqb a b = true -> a = b.
+Proof. unfold dtoks_eqb. intros a b H. destruct (list_eq_dec dtok_eq_dec a b); [assumption|discriminate]. Qed.
+Lemma strs_eqb_eq : forall a b, strs_eqb a b = true -> a = b.
+Proof. unfold strs_eqb. intros a b H. destruct (list_eq_dec string_dec a b); [assumption|discriminate]. Qed.
+
+(* date conversions keep the day *)
+Lemma to_week_date_ok : forall md d0, valid_date md d0 = true ->
+  exists d', to_week_date md d0 = Some d' /\ valid_date md d' = true /\ date_dn md d' = date_dn md d0 /\ rep_kind d' = 2.
+Proof.
+  intros md d0 V. unfold to_week_date.
+  assert (H : exists wy w wd, get_week_date md d0 = Some (wy, w, wd) /\ valid_week md wy w wd = true /\
+                              dn_week md wy w wd = date_dn md d0).
+  { destruct d0 as [y m d | y doy | y w d]; cbn [valid_date get_week_date date_dn] in *.
+    - apply week_from_cal_spec; exact V.
+    - apply week_from_ord_spec; exact V.
+    - exists y, w, d. auto. }
+  destruct H as (wy & w & wd & -> & Vw & Dw). exists (Wk wy w wd). auto.
+Qed.
+Lemma to_calendar_date_ok : forall md d0, valid_date md d0 = true ->
+  exists d', to_calendar_date md d0 = Some d' /\ valid_date md d' = true /\ date_dn md d' = date_dn md d0 /\ rep_kind d' = 0.
+Proof.
+  intros md d0 V. unfold to_calendar_date.
+  destruct (get_calendar_date_spec md d0 V) as (y & m & d & -> & Vc & Dc). exists (Cal y m d). auto.
+Qed.
+
+Lemma instant_with_date : forall md p d, date_dn md d = date_dn md (tdate p) ->
+  (instant md (with_date p d) == instant md p)%Q.
+Proof. intros md p d E. unfold instant, with_date. cbn [tdate ttod tzone]. rewrite E. reflexivity. Qed.
+
+(* what a successful dump with a complete-date template, the zone Z, has rendered *)
+Lemma dump_with_custom : forall ned md p tmpl props s k xp,
+  valid_tp md p = true ->
+  mem "week_of_year" props || mem "day_of_week" props = (k =? 2) ->
+  mem "month_of_year" props || mem "day_of_month" props || mem "day_of_year" props = negb (k =? 2) ->
+  mem "century" props = true -> mem "expanded_year_digits" props = xp ->
+  dump_with ned md p tmpl props (Some (0, 0)) = DOk s ->
+  exists r, valid_tp md r = true /\ (instant md r == instant md p)%Q /\ tzone r = mkZone 0 0 /\
+            tod_kind (ttod r) = tod_kind (ttod p) /\
+            (if k =? 2 then rep_kind (tdate r) = 2 else rep_kind (tdate r) <> 2) /\
+            (if xp then (ned =? 0) = false -> Z.abs (date_year (tdate r)) <= 10 ^ (ned + 4) - 1
+             else 0 <= date_year (tdate r) <= 9999) /\
+            (xp = true -> (ned =? 0) = true -> 0 <= date_year (tdate r) <= 9999) /\
+            render md r tmpl = Some s.
+Proof.
+  intros ned md p tmpl props s k xp V F1 F2 F3 F4 D.
+  rewrite (dump_with_flags ned md p tmpl props _ _ _ _ _ F1 F2 F3 F4) in D. cbv zeta in D.
+  destruct (valid_tp_parts md p V) as (Vd & Vt & Vz).
+  assert (Q1 : exists q1, (if k =? 2
+      then if negb (negb (k =? 2))
+           then match to_week_date md (tdate p) with Some d => Some (with_date p d) | None => None end
+           else Some p
+      else if match tdate p with Wk _ _ _ => true | _ => false end && negb (k =? 2)
+           then match to_calendar_date md (tdate p) with Some d => Some (with_date p d) | None => None end
+           else Some p) = Some q1 /\ valid_tp md q1 = true /\ (instant md q1 == instant md p)%Q /\
+           tod_kind (ttod q1) = tod_kind (ttod p) /\
+           (if k =? 2 then rep_kind (tdate q1) = 2 else rep_kind (tdate q1) <> 2)).
+  { destruct (k =? 2) eqn:K; cbn [negb andb].
+    - destruct (to_week_date_ok md _ Vd) as (d' & E & V' & D' & K'). rewrite E.
+      exists (with_date p d'). split; [reflexivity|]. split.
+      { unfold valid_tp, with_date. cbn [tdate ttod tzone]. rewrite V', Vt, Vz. reflexivity. }
+      split; [apply instant_with_date; exact D'|]. split; [reflexivity|exact K'].
+    - destruct (tdate p) as [y m dd|y doy|y w dd] eqn:TD; cbn [andb].
+      + exists p. rewrite TD. repeat split; try assumption; try reflexivity. cbn. lia.
+      + exists p. rewrite TD. repeat split; try assumption; try reflexivity. cbn. lia.
+      + rewrite <- TD in *. destruct (to_calendar_date_ok md _ Vd) as (d' & E & V' & D' & K'). rewrite E.
+        exists (with_date p d'). split; [reflexivity|]. split.
+        { unfold valid_tp, with_date. cbn [tdate ttod tzone]. rewrite V', Vt, Vz. reflexivity. }
+        split; [apply instant_with_date; exact D'|]. split; [reflexivity|]. cbn [with_date tdate]. lia. }
+  destruct Q1 as (q1 & E1 & V1 & I1 & T1 & R1). rewrite E1 in D.
+  destruct (to_time_zone_spec md q1 (mkZone 0 0) V1 eq_refl) as (r & E2 & I2 & Z2 & K2 & T2 & V2).
+  rewrite E2 in D. exists r.
+  split; [exact V2|]. split; [rewrite I2; exact I1|]. split; [exact Z2|]. split; [congruence|].
+  split; [rewrite K2; exact R1|].
+  match type of D with (if ?b then _ else _) = _ => destruct b eqn:B end; [discriminate|].
+  destruct (render md r tmpl) as [s'|]; [|discriminate]. inversion D; subst s'.
+  split; [|split; [|reflexivity]].
+  - destruct xp; cbn [andb orb negb] in B.
+    + intros N0. rewrite N0 in B. cbn [andb orb negb] in B. lia.
+    + lia.
+  - intros -> N0. rewrite N0 in B. cbn [andb orb negb] in B. lia.
+Qed.
+
+(* the date the template's fields are those of *)
+Definition tgt_rel (md : mode) (k : Z) (d d' : date) : Prop :=
+  match d' with
+  | Cal y m dd => k = 0 /\ get_calendar_date md d = Some (y, m, dd)
+  | Ord y doy => k = 1 /\ get_ordinal_date md d = Some (y, doy)
+  | Wk y w dd => k = 2 /\ get_week_date md d = Some (y, w, dd)
+  end.
+Lemma tgt_spec : forall md k d, valid_date md d = true -> In k [0; 1; 2] ->
+  (if k =? 2 then rep_kind d = 2 else rep_kind d <> 2) ->
+  exists d', tgt_rel md k d d' /\ valid_date md d' = true /\ date_dn md d' = date_dn md d /\ date_year d' = date_year d.
+Proof.
+  intros md k d V K R. destruct K as [<-|[<-|[<-|[]]]]; cbn [Z.eqb Pos.eqb] in R.
+  - destruct d as [y m dd|y doy|y w dd]; cbn [rep_kind] in R; try lia.
+    + exists (Cal y m dd). cbn. auto.
+    + cbn [valid_date] in V. destruct (proj1 (cal_from_ord_spec md y doy) V) as (m & dd & E & Vc & Dc).
+      exists (Cal y m dd). cbn [tgt_rel get_calendar_date valid_date date_dn date_year]. auto.
+  - destruct d as [y m dd|y doy|y w dd]; cbn [rep_kind] in R; try lia.
+    + cbn [valid_date] in V. destruct (proj1 (ord_from_cal_spec md y m dd) V) as (doy & E & Vo & Do).
+      exists (Ord y doy). cbn [tgt_rel get_ordinal_date valid_date date_dn date_year]. auto.
+    + exists (Ord y doy). cbn. auto.
+  - destruct d as [y m dd|y doy|y w dd]; cbn [rep_kind] in R; try lia.
+    exists (Wk y w dd). cbn. auto.
+Qed.
+
+Lemma pv_century : forall md d t z, prop_value md (mkTp d t z) "century" = VInt ((Z.abs (date_year d) mod 10000) / 100).
+Proof. intros. destruct t; reflexivity. Qed.
+Lemma pv_yoc : forall md d t z, prop_value md (mkTp d t z) "year_of_century" = VInt (Z.abs (date_year d) mod 100).
+Proof. intros. destruct t; reflexivity. Qed.
+Lemma pv_xyd : forall md d t z, prop_value md (mkTp d t z) "expanded_year_digits" = VInt (Z.abs (date_year d) / 10000).
+Proof. intros. destruct t; reflexivity. Qed.
+Lemma pv_ysign : forall md d t z, prop_value md (mkTp d t z) "year_sign" = VStr (if 0 <=? date_year d then "+" else "-").
+Proof. intros. destruct t; reflexivity. Qed.
+Lemma pv_moy : forall md d t z, prop_value md (mkTp d t z) "month_of_year" =
+  match get_calendar_date md d with Some (_, m, _) => VInt m | None => VNone end.
+Proof. intros. destruct t; reflexivity. Qed.
+Lemma pv_dom : forall md d t z, prop_value md (mkTp d t z) "day_of_month" =
+  match get_calendar_date md d with Some (_, _, dd) => VInt dd | None => VNone end.
+Proof. intros. destruct t; reflexivity. Qed.
+Lemma pv_doy : forall md d t z, prop_value md (mkTp d t z) "day_of_year" =
+  match get_ordinal_date md d with Some (_, dd) => VInt dd | None => VNone end.
+Proof. intros. destruct t; reflexivity. Qed.
+Lemma pv_woy : forall md d t z, prop_value md (mkTp d t z) "week_of_year" =
+  match get_week_date md d with Some (_, w, _) => VInt w | None => VNone end.
+Proof. intros. destruct t; reflexivity. Qed.
+Lemma pv_dow : forall md d t z, prop_value md (mkTp d t z) "day_of_week" =
+  match get_week_date md d with Some (_, _, dd) => VInt dd | None => VNone end.
+Proof. intros. destruct t; reflexivity. Qed.
+
+Ltac eval_cf :=
+  repeat match goal with
+  | |- context [CF ?a ?b ?c ?d] => let f := eval vm_compute in (CF a b c d) in change (CF a b c d) with f
+  end.
+Ltac in_cases H :=
+  repeat (destruct H as [H|H]; [inversion H; subst; clear H|]); try contradiction.
+
+Lemma render_cdate : forall md ned ext xp k d d' t z, In (ned, ext, xp, k) cust_cases ->
+  tgt_rel md k d d' -> date_year d' = date_year d -> year_ok (if xp then ned else 0) (date_year d) ->
+  render md (mkTp d t z) (f_dump (CF (pcfg_ned ned) ext xp k)) =
+  Some (render_toks (f_parse (CF (pcfg_ned ned) ext xp k)) (date_env (if xp then ned else 0) d')).
+Proof.
+  intros md ned ext xp k d d' t z C T Y YO.
+  assert (A1 : forall y, 0 <= y <= 9999 -> (Z.abs y mod 10000) / 100 = y / 100) by (intros; lia).
+  assert (A2 : forall y, 0 <= y <= 9999 -> Z.abs y mod 100 = y mod 100) by (intros; lia).
+  assert (A3 : forall y, (Z.abs y mod 10000) / 100 = Z.abs y / 100 mod 100) by (intros; lia).
+  assert (A4 : forall y, (if 0 <=? y then "+" else "-") = (if y <? 0 then "-" else "+")).
+  { intros y. destruct (0 <=? y) eqn:P; destruct (y <? 0) eqn:Q; try reflexivity; lia. }
+  unfold cust_cases in C. cbn in C. in_cases C; unfold year_ok in YO; cbn [Z.eqb Pos.eqb] in YO;
+    change (pcfg_ned 0) with 2; change (pcfg_ned 2) with 2; change (pcfg_ned 3) with 3; eval_cf;
+    destruct d' as [y' m' dd'|y' doy'|y' w' dd']; cbn [tgt_rel date_year] in T, Y; destruct T as [T0 T]; try discriminate T0;
+    cbn [f_dump f_parse render]; rewrite ?pv_century, ?pv_yoc, ?pv_xyd, ?pv_ysign, ?pv_moy, ?pv_dom, ?pv_doy, ?pv_woy, ?pv_dow, ?T;
+    date_cbn; rewrite Y; change (Z.to_nat 2) with 2%nat; change (Z.to_nat 3) with 3%nat;
+    rewrite ?A1, ?A2 by exact YO; rewrite ?A4, ?A3; rewrite ?sapp_nil_r, ?sapp_assoc; reflexivity.
+Qed.
+
+Lemma cdate_vals : forall ned ext xp k d', In (ned, ext, xp, k) cust_cases -> rep_kind d' = k ->
+  year_ok (if xp then ned else 0) (date_year d') -> date_ranges d' ->
+  let fd := CF (pcfg_ned ned) ext xp k in
+  let de := bindings (f_parse fd) (date_env (if xp then ned else 0) d') in
+  wf_assign (f_parse fd) (date_env (if xp then ned else 0) d') = true /\
+  pn_year de = Some (date_year d') /\ pn_trunc de = false /\ pn_tprop de = "" /\
+  nz de "month_of_year" = d_month d' /\ nz de "day_of_month" = d_dom d' /\ nz de "day_of_year" = d_doy d' /\
+  nz de "week_of_year" = d_week d' /\ nz de "day_of_week" = d_dow d'.
+Proof.
+  intros ned ext xp k d' C K Y R fd de. subst fd de. unfold year_ok in Y.
+  unfold cust_cases in C. cbn in C. revert K Y.
+  in_cases C; intros K Y; cbn [Z.eqb Pos.eqb] in Y;
+    change (pcfg_ned 0) with 2; change (pcfg_ned 2) with 2; change (pcfg_ned 3) with 3; eval_cf;
+    destruct d' as [y m dd|y doy|y w dd]; cbn [rep_kind] in K; try discriminate K; cbn [date_ranges date_year] in *;
+    (assert (A0 : 0 <= Z.abs y) by lia);
+    (assert (Y0 : Z.abs y < 10 ^ 6 -> 0 <= Z.abs y / 10000 < 100) by (intros; split; [apply Z.div_pos; lia|apply Z.div_lt_upper_bound; lia]));
+    (assert (Y0' : Z.abs y < 10 ^ 7 -> 0 <= Z.abs y / 10000 < 1000) by (intros; split; [apply Z.div_pos; lia|apply Z.div_lt_upper_bound; lia]));
+    (assert (Y1 : 0 <= Z.abs y / 100 mod 100 < 100) by (apply Z.mod_pos_bound; lia));
+    (assert (Y2 : 0 <= Z.abs y mod 100 < 100) by (apply Z.mod_pos_bound; lia));
+    (assert (Y3 : 0 <= y <= 9999 -> 0 <= y / 100 < 100) by (intros; split; [apply Z.div_pos; lia|apply Z.div_lt_upper_bound; lia]));
+    (assert (Y4 : 0 <= y mod 100 < 100) by (apply Z.mod_pos_bound; lia));
+    (assert (YY : Z.abs y mod 100 + 100 * (Z.abs y / 100 mod 100) + 10000 * (Z.abs y / 10000) = Z.abs y) by lia);
+    (assert (YY' : y mod 100 + 100 * (y / 100) = y) by lia);
+    try specialize (Y3 Y); try specialize (Y0 Y); try specialize (Y0' Y);
+    unfold pn_year, pn_tprop, pn_year_present, pn_trunc; date_cbn; cbn [f_parse wf_assign bindings d_month d_dom d_doy d_week d_dow];
+    date_cbn; change (Z.to_nat 2) with 2%nat; change (Z.to_nat 3) with 3%nat; pad_facts;
+    try (destruct (y <? 0) eqn:SG); cbn [is_sign String.eqb Ascii.eqb Bool.eqb orb andb]; close_vals.
+Qed.
